@@ -567,11 +567,84 @@ func windowedCase(idx int64, r *rand.Rand) {
 	}
 }
 
+// windowedConcurrent: a WindowedLimit fed from two goroutines.  While the delegate is being handed window 1 (the
+// injected delegate is slow: it yields), another goroutine reports a drop with a unique, large in-flight.  That
+// sample has to end up in exactly one delivered window - the one being handed over if it got in first, the next one
+// otherwise - so after a further closing sample exactly one delivered window carries the drop flag and the
+// largest in-flight delivered is the unique value.
+func windowedConcurrent(idx int64, r *rand.Rand) {
+	windowSize := int32(10 + r.IntN(5))
+	minW := int64(1e8)
+	var armed, bDone atomic.Bool
+	yields := []int{50, 500, 5000}[r.IntN(3)]
+	rec := inject.NewScriptedLimit(20, func(n int) int { return 10 + n%15 })
+	rec.OnEnter = func() {
+		if armed.CompareAndSwap(true, false) {
+			for i := 0; i < yields && !bDone.Load(); i++ {
+				runtime.Gosched()
+			}
+		}
+	}
+	w, err := limit.NewWindowedLimit("c09", minW, minW, windowSize, 0, rec, nil)
+	if err != nil {
+		panic(err)
+	}
+	t0 := int64(1e15)
+	unique := 1000 + r.IntN(1000)
+	nB := 1 + r.IntN(3)
+	preYields := r.IntN(40)
+	armed.Store(true)
+	var wg sync.WaitGroup
+	wg.Add(2)
+	bar := make(chan struct{})
+	go func() {
+		defer wg.Done()
+		<-bar
+		w.OnSample(t0, 1000, int(windowSize)+1, false) // closes window 1 (ready: in-flight above the window size)
+	}()
+	go func() {
+		defer wg.Done()
+		<-bar
+		for i := 0; i < preYields; i++ {
+			runtime.Gosched()
+		}
+		for j := 0; j < nB; j++ {
+			w.OnSample(t0+1+int64(j), 2000, 3, j == 0) // below the window size: never closes a window itself; the first is a drop
+		}
+		w.OnSample(t0+10, 3000, 5, false)
+		bDone.Store(true)
+	}()
+	close(bar)
+	wg.Wait()
+	// one sample with the unique in-flight (not ready: the window period has not elapsed), then the closing sample of the next window
+	w.OnSample(t0+20, 2500, 7, false)
+	w.OnSample(t0+3*minW, 1000, unique, false)
+	got := rec.Samples()
+	rt.Count("windowed_concurrent_rounds", 1)
+	drops, maxIF := 0, 0
+	for _, s := range got {
+		if s.Drop {
+			drops++
+		}
+		if s.InFlight > maxIF {
+			maxIF = s.InFlight
+		}
+	}
+	cfg := rt.J{"window_size": windowSize, "delegate_yields": yields, "concurrent_samples": nB + 1}
+	if drops != 1 || maxIF != unique || len(got) < 2 {
+		rt.Violation("C09/windowed/concurrent-sample-not-in-exactly-one-delivered-window", idx, rt.J{"config": cfg, "delivered_windows": got, "windows_with_drop_flag": drops, "want": 1})
+		return
+	}
+	rt.Distinct(fmt.Sprintf("wconc|%v|%d", cfg, len(got)))
+}
+
 func TestCheck(t *testing.T) {
 	rt.Cases(6000, 600000, func(idx int64) {
 		r := rt.CaseRand(9, idx)
 		rt.Case()
-		if idx%8 == 1 {
+		if idx%16 == 3 {
+			windowedConcurrent(idx, r)
+		} else if idx%8 == 1 {
 			simultaneousCase(t, idx, r)
 		} else if idx%4 == 0 {
 			defaultLimiterCase(t, idx, r)
